@@ -131,7 +131,7 @@ def mc_lease(wd, tier, workers):
 
 
 _READS = dict(hcfg={"n": 3, "cap": 100}, rnd_cfgs=[{"n": 3, "cap": 100}, {"n": 5, "cap": 100}], profile="reads")
-PROPS["C11"] = dict(mc={"quick": ["repl-q"], "thorough": ["repl-t"]}, mc_custom=mc_lease, mech=["Client"], min_mech=2, **_READS)
+PROPS["C11"] = dict(mc={"quick": ["repl-q"], "thorough": ["repl-t"]}, mc_custom=[mc_lease, lambda *a: mc_client(*a)], client=60, mech=["Client"], min_mech=2, **_READS)
 PROPS["C12"] = dict(mc={"quick": [], "thorough": []}, mc_custom=mc_lease, mech=["Client"], min_mech=2, **_READS)
 _SNAP = {"n": 3, "cap": 100, "snapshot": True, "snap_threshold": 3, "retained": 1}
 PROPS["C33"] = dict(mc={"quick": ["repl-q"], "thorough": ["repl-t"]}, mech=["DeliverSnap", "Restart"], min_mech=1, level="exploration",
@@ -178,7 +178,7 @@ def mc_cfg(wd, name, consts, dev, invariants, hist=False, emit=0):
     return cfg
 
 
-def mc_client_cfg(wd, name, consts, dev, invariants, hist=False, led=True):
+def mc_client_cfg(wd, name, consts, dev, invariants, hist=False, led=True, emit=0):
     """configuration of MC_client.tla (client layer on top of DEngine); led: start from the settled state"""
     c = dict(consts)
     faults = c.pop("Faults")
@@ -189,13 +189,86 @@ def mc_client_cfg(wd, name, consts, dev, invariants, hist=False, led=True):
     constants.setdefault("InitView", "<- IV_all")
     constants.setdefault("MaxCfg", 0)
     constants["HistOn"] = "TRUE" if hist else "FALSE"
-    constants["EmitDepth"] = 0
+    constants["EmitDepth"] = emit
     constants.setdefault("Eager", "{}")
     constants.setdefault("MaxLevel", 1000)
     lean = constants.pop("Lean", False)
     dv.write_cfg(cfg, spec="SpecLed" if led else "SpecC", constants=constants, invariants=invariants,
                  constraint="BoundC3", view="cViewLean" if lean else "cView")
     return cfg
+
+
+# Client-layer model (DEClient.tla / MC_client.tla): explored from the settled state after the first election
+# (node 1 leads term 2, no-op committed everywhere, nothing applied yet, nothing in flight; TLC reaches that state
+# from Init at depth 13 - configuration `settle` below checks that the hand-written state is the reachable one).
+CLIENT = dict(Node="{1,2,3}", MaxTerm=3, MaxLog=3, MaxMsgs=6, Cap=100, Faults=["Client"], MaxCrash=0, MaxDrop=0, MaxReads=1)
+MCC = {
+    # node 3 never leads in these configurations (TwoLeaders): its state machine follows its commit index
+    "client-q": dict(CLIENT, Eager="{3}", MaxLevel=13, Lean=True),
+    "client-t": dict(CLIENT, Eager="{3}", MaxLevel=17, Lean=True),
+}
+R_INVS = ["R_NoStaleRead", "R_AckAfterApply", "R_AckedIsCommittedS", "R_ApplyBehindCommit"]
+READ_DEVS = ["ReadServedOnApplyWithoutConfirmation", "AnyAckConfirmsReads", "VotersIgnoreRecentLeader"]
+
+
+def _ft(a, b):
+    return {"from": a, "to": b}
+
+
+# the schedule that takes real nodes to the settled state (apply pipelines held from the start)
+PRE_LED = ([{"a": "LagAll"}, {"a": "Timeout", "n": 1}, {"a": "StartRound", "n": 1},
+            dict(a="DeliverVQ", **_ft(1, 2)), dict(a="DeliverVQ", **_ft(1, 3)),
+            dict(a="DeliverAE", **_ft(1, 2)), dict(a="DeliverAE", **_ft(1, 3)),
+            dict(a="DeliverAR", **_ft(2, 1)), dict(a="DeliverAR", **_ft(3, 1)), {"a": "Heartbeat", "n": 1},
+            dict(a="DeliverAE", **_ft(1, 2)), dict(a="DeliverAE", **_ft(1, 3)),
+            dict(a="DeliverAR", **_ft(2, 1)), dict(a="DeliverAR", **_ft(3, 1))])
+
+
+def client_steps(hist, tag):
+    """schedule of a DEClient behaviour: one key, distinguishable values"""
+    out, k = [], 0
+    for st in hist:
+        st = dict(st)
+        if st.get("a") == "Client":
+            st["key"] = "k1"
+            if st.get("op") == "put":
+                k += 1
+                st["val"] = "%s_%d" % (tag, k)
+        out.append(st)
+    return out
+
+
+def mc_client(wd, tier, workers):
+    """DEClient.tla: the repaired design (Dev = {}) must satisfy the R_ invariants within the depth bound; in the
+    thorough tier the as-implemented read deviations are run too and their (expected) counterexample recorded."""
+    out = []
+    name = "client-q" if tier == "quick" else "client-t"
+    runs = [([], name)]
+    if tier != "quick":
+        runs.append((["ReadServedOnApplyWithoutConfirmation"], "client-q"))
+    for dev, cname in runs:
+        cfg = mc_client_cfg(wd, "%s-%d" % (cname, len(out)), MCC[cname], dev, R_INVS)
+        st = dv.tlc_mc("MC_client", cfg, wd, workers=workers, timeout=3000)
+        if not dev and not st["ok"]:
+            raise dv.ToolError("DEClient.tla (Dev={}) violates %s:\n%s" % (st["violated"], st["output_tail"]))
+        out.append({"config": "MC_client/%s Dev=%s" % (cname, dev or "{}"),
+                    "constants": {k: v for k, v in MCC[cname].items()}, "distinct_states": st["distinct"],
+                    "states_generated": st["generated"], "depth": st["depth"], "secs": st["secs"],
+                    "invariant_holds": st["ok"], "violated": st["violated"]})
+    return out
+
+
+def client_schedules(wd, num, depth, seed_):
+    """behaviours of the as-implemented client-layer model (apply lag, reads, lease expiry) from the settled state"""
+    consts = dict(CLIENT, MaxTerm=4, MaxLog=5, MaxMsgs=8, Faults=["Client", "Heartbeat", "Drop"], MaxDrop=2, MaxReads=3)
+    cfg = mc_client_cfg(wd, "client-sim", consts, AS_IMPL + READ_DEVS, ["EmitC"], hist=True, emit=depth)
+    # no symmetry pruning in simulation: every node may stand
+    with open(cfg) as f:
+        txt = f.read().replace("CONSTRAINT BoundC3", "CONSTRAINT BoundC")
+    with open(cfg, "w") as f:
+        f.write(txt)
+    scheds, secs = dv.tlc_simulate("MC_client", cfg, wd, num, depth + 1, seed_)
+    return [PRE_LED + client_steps(s, "c%d" % i) for i, s in enumerate(scheds)], secs
 
 
 def uniquify(sched, tag):
@@ -288,8 +361,9 @@ def check(prop, tier):
         states += st["distinct"]
         transitions += st["generated"]
 
-    if spec.get("mc_custom"):
-        for st in spec["mc_custom"](wd, tier, T["workers"]):
+    customs = spec.get("mc_custom") or []
+    for fn in (customs if isinstance(customs, (list, tuple)) else [customs]):
+        for st in fn(wd, tier, T["workers"]):
             mc_stats.append(st)
             if st.get("invariant_holds", True):
                 states += st["distinct_states"]
@@ -301,6 +375,10 @@ def check(prop, tier):
     cfg = mc_cfg(wd, "sim", simc, AS_IMPL, ["Emit"], hist=True, emit=T["sim_depth"])
     scheds, sim_secs = dv.tlc_simulate("MC_core", cfg, wd, T["sim_num"], T["sim_depth"] + 1, dv.seed())
     scheds = [uniquify(s, "t%d" % i) for i, s in enumerate(scheds)]
+    client_scheds = []
+    if spec.get("client"):
+        client_scheds, _ = client_schedules(wd, T["sim_num"] * spec["client"] // 100, 24, dv.seed())
+        scheds += client_scheds
 
     # 3. real code
     hcfg = spec.get("hcfg") or {"n": 3, "cap": 2}
@@ -364,7 +442,7 @@ def check(prop, tier):
                 "Raft nodes + seeded random schedules of the step harness; non-trivial = contains >= %d applied "
                 "%s step(s); distinct by applied label sequence" % (spec["min_mech"], "/".join(spec["mech"])),
         "model_checking": mc_stats,
-        "tlc_schedules": len(scheds), "random_runs": T["rnd_runs"],
+        "tlc_schedules": len(scheds), "client_layer_schedules": len(client_scheds), "random_runs": T["rnd_runs"],
         "trace_records_judged": steps, "steps_applied": conf,
         "conformance_divergences": divsum,
         "monitor_failures_all_properties": len(viol),
